@@ -7,7 +7,8 @@
    Fetcher as of the C11 fix commits in /repo (4906af9 8808eaf 8d69ad3 3ee1a3d = /verif/fixes/C11-*.diff). *)
 From Coq Require Import List NArith Bool.
 From MW Require Import C11.Model C11.Proofs C11.Proofs2 C11.Proofs3 C11.ProofsFuel.
-From MW Require Import C11.ModelContinue C11.Gen_continue C11.ProofsContinue.
+From MW Require Import C11.ModelContinue C11.Gen_continue C11.ProofsContinue C11.ModelSliced C11.ProofsSliced.
+From MW Require Import C11.ModelMerge C11.ProofsMerge.
 Import ListNotations.
 
 (* Termination with an explicit measure: every scheduling decision on a non-final state strictly decreases
@@ -228,3 +229,81 @@ Theorem C11_continue_counting_stop_refuted :
                      <> nth_error (map (fun q => snd (query (stop_counting 3%N) srv fuel 0%N q)) qs) i.
 Proof. exact counting_stop_is_cross_query. Qed.
 Print Assumptions C11_continue_counting_stop_refuted.
+
+(* ------------------------------------------------------------------------------------------------------------
+   The API result limit is invisible (quantifier: "result limits from 1 to 50 with continuation" - here ANY
+   limit >= 1): `sliced_server limit db` serves the values db q of a query in slices of `limit` values with the
+   next offset as continuation value (coq/C11/ModelSliced.v). *)
+
+(* the slices form a chain of fresh continuation values whose merge is the whole list *)
+Theorem C11_sliced_answers_chain : forall limit db q, (1 <= limit)%nat ->
+  exists sl, Chain (sliced_server limit db) q None sl /\ (length sl <= S (length (db q)))%nat /\
+             full_answer sl = [(q, db q)].
+Proof. exact sliced_chain. Qed.
+Print Assumptions C11_sliced_answers_chain.
+
+(* one query, any limit, any value of the client's counter: all values are returned *)
+Theorem C11_result_limit_invisible : forall limit db q fuel n, (1 <= limit)%nat -> (S (length (db q)) <= fuel)%nat ->
+  snd (query gen_stop (sliced_server limit db) fuel n q) = Some [(q, db q)].
+Proof. exact sliced_query_complete. Qed.
+Print Assumptions C11_result_limit_invisible.
+
+(* a fetch of any size (any list of queries on one client), any limit: every answer is the whole list *)
+Theorem C11_result_limit_invisible_whole_fetch : forall limit db fuel qs n, (1 <= limit)%nat ->
+  (forall q, In q qs -> (S (length (db q)) <= fuel)%nat) ->
+  snd (run_queries gen_stop (sliced_server limit db) fuel n qs) = map (fun q => Some [(q, db q)]) qs.
+Proof. exact sliced_fetch_complete. Qed.
+Print Assumptions C11_result_limit_invisible_whole_fetch.
+
+(* non-vacuity (limit 2, lists of 7 and 3 values, queries 1, 2, 1: 7 continuation rounds, all complete) and the
+   same fetch with a give-up condition that counts all rounds (bound 3): the later queries are cut short *)
+Example C11_sliced_example :
+  run_queries gen_stop (sliced_server 2 ex_db) 8 0%N [1; 2; 1]%N
+  = (7%N, [Some [(1, [11; 12; 13; 14; 15; 16; 17])]; Some [(2, [21; 22; 23])]; Some [(1, [11; 12; 13; 14; 15; 16; 17])]]%N) /\
+  run_queries (stop_counting 3%N) (sliced_server 2 ex_db) 8 0%N [1; 2; 1]%N
+  = (5%N, [Some [(1, [11; 12; 13; 14; 15; 16; 17])]; Some [(2, [21; 22])]; Some [(1, [11; 12])]]%N).
+Proof. exact sliced_example. Qed.
+Print Assumptions C11_sliced_example.
+
+(* ------------------------------------------------------------------------------------------------------------
+   sapi.merge_data on nested JSON values (coq/C11/ModelMerge.v; None = ValueError).  Its statements are pinned by
+   vt/gen/c11_sapi.py; it is run against the real function on random nested values on every check. *)
+
+(* lists are extended, atoms are left alone, values of different types do not merge *)
+Theorem C11_merge_data_lists_extend : forall d s, merge_val (VList d) (VList s) = Some (VList (d ++ s)).
+Proof. exact merge_val_list. Qed.
+Print Assumptions C11_merge_data_lists_extend.
+
+Theorem C11_merge_data_type_mismatch : forall dst src,
+  match dst, src with
+  | VAtom _, VAtom _ | VList _, VList _ | VDict _, VDict _ => True
+  | _, _ => merge_val dst src = None
+  end.
+Proof. exact merge_val_mismatch. Qed.
+Print Assumptions C11_merge_data_type_mismatch.
+
+(* a key dst does not have is added at the end; a key it has is merged in place and nothing else moves *)
+Theorem C11_merge_data_new_key : forall d k v, ~ In k (map fst d) ->
+  merge_val (VDict d) (VDict [(k, v)]) = Some (VDict (d ++ [(k, v)])).
+Proof. exact merge_val_new_key. Qed.
+Print Assumptions C11_merge_data_new_key.
+
+Theorem C11_merge_data_old_key : forall d1 d2 k x v, ~ In k (map fst d1) ->
+  merge_val (VDict (d1 ++ (k, x) :: d2)) (VDict [(k, v)])
+  = match merge_val x v with Some y => Some (VDict (d1 ++ (k, y) :: d2)) | None => None end.
+Proof. exact merge_val_old_key. Qed.
+Print Assumptions C11_merge_data_old_key.
+
+(* the `merge` used by the continuation theorems above is merge_data on dicts of lists (same key order) *)
+Theorem C11_merge_data_flat_case : forall a b, merge_val (of_flat a) (of_flat b) = Some (of_flat (merge a b)).
+Proof. exact merge_val_flat. Qed.
+Print Assumptions C11_merge_data_flat_case.
+
+(* non-vacuity: two slices of a real-shaped answer (pages / page id / title + images); a list met by a dict *)
+Example C11_merge_data_example :
+  (merge_val (VDict [(1, VDict [(7, VDict [(2, VAtom 100); (3, VList [1; 2])])])])
+             (VDict [(1, VDict [(7, VDict [(2, VAtom 100); (3, VList [3])]); (8, VDict [(2, VAtom 101)])])])
+   = Some (VDict [(1, VDict [(7, VDict [(2, VAtom 100); (3, VList [1; 2; 3])]); (8, VDict [(2, VAtom 101)])])]) /\
+   merge_val (VDict [(1, VList [1])]) (VDict [(1, VDict [])]) = None)%N.
+Proof. exact merge_val_example. Qed.
+Print Assumptions C11_merge_data_example.
